@@ -32,6 +32,27 @@ ASSUMPTIONS = ["a tag (tag, product, flavor) is one designation on the whole EUP
                "two table files are the same table when their bytes are (the contents of the universe differ in length, so "
                "that filecmp's shallow comparison cannot tie); table files declare no options and no dependencies"]
 
+# the functions the model mirrors (harness/fingerprint.py): a changed fingerprint makes the quick tier run with the thorough case budget
+MIRRORS = [
+    ('python/eups/Eups.py', 'Eups.declare'),
+    ('python/eups/Eups.py', 'Eups.undeclare'),
+    ('python/eups/Eups.py', 'Eups.assignTag'),
+    ('python/eups/Eups.py', 'Eups.unassignTag'),
+    ('python/eups/Eups.py', 'Eups.remove'),
+    ('python/eups/Eups.py', 'Eups._remove'),
+    ('python/eups/Eups.py', 'Eups.findProducts'),
+    ('python/eups/Eups.py', 'Eups.findProduct'),
+    ('python/eups/Eups.py', 'Eups.__init__'),
+    ('python/eups/Eups.py', 'Eups._setProductStack_fromCache'),
+    ('python/eups/Eups.py', 'Eups.findTaggedProduct'),
+    ('python/eups/db/Database.py', '*'),
+    ('python/eups/db/VersionFile.py', '*'),
+    ('python/eups/db/ChainFile.py', '*'),
+    ('python/eups/utils.py', 'isSubpath'),
+    ('python/eups/Product.py', 'Product.resolvePaths'),
+    ('python/eups/Eups.py', 'Eups.isSetup'),
+]
+
 WORKERS = int(os.environ.get("VERIF_WORKERS", "12"))
 EMPTY = {"decls": [], "tags": []}
 
